@@ -33,6 +33,10 @@ def run(tier):
     from bounded.contract_enum import run_contract_enum
     from contracts import c10
     pipeline.ensure_repo()
+    targs = c10.mst_arg_sets()
+    cr.bounded_check(run_contract_enum, "spanning-tree-box", c10.mst, targs,
+                     f"{len(targs)} entity sets (1..5 entities on a small grid in every order, some without a position): a spanning tree of the positioned entities, grown from the "
+                     "first, of minimal total length (contract evaluated on the real ConnectionPlanner._build_minimum_spanning_tree)")
     margs = c10.map_operands_arg_sets()
     cr.bounded_check(run_contract_enum, "map-operands-box", c10.map_operands, margs,
                      f"{len(margs)} nodes: one of every IR node kind (deciders with and without condition rows, latch writes with and without inline conditions): every "
